@@ -294,6 +294,14 @@ func variantParameterFolder(root, repo, name string, edit func(file string, cont
 // takes a few ten milliseconds.
 func genShortProject(r *vh.Rng, name string) *proj.Project {
 	p := proj.Gen(r, name, proj.Opt{Years: 2, MaxLayers: 12, MinLayers: 3, Management: r.Chance(0.5)})
+	// every optional input source a run can read appears in the batches: a groundwater time series (several
+	// dates, read into a map), a sinusoidal groundwater regime from the polygon file
+	switch r.Intn(4) {
+	case 0:
+		p.SetGroundwaterSeries(r, 4, 18, r.Range(4, 10))
+	case 1:
+		p.SetGroundwaterPolygon(r.Range(3, 8), r.Range(9, 20), r.Range(0, 360))
+	}
 	return p
 }
 
